@@ -217,9 +217,141 @@ Proof.
   change (set_children (hq_fields o) (Elem x_name xa xk :: Elem set_name sa sk :: hq_flip ns q) (mkhqraw (hq_id q) None false 0 [] None))
     with (bind (set_child (hq_fields o) (Elem x_name xa xk) (mkhqraw (hq_id q) None false 0 [] None))
                (fun r => bind (set_child (hq_fields o) (Elem set_name sa sk) r) (set_children (hq_fields o) (hq_flip ns q)))).
-  rewrite (hq_x_child o xa xk _ n eq_refl Hu). cbn [bind hw_id hw_flip hw_max hw_after hw_before].
+  rewrite (hq_x_child o xa xk (mkhqraw (hq_id q) None false 0 [] None) n eq_refl Hu). cbn [bind hw_id hw_flip hw_max hw_after hw_before].
   rewrite hq_set_child, HT by reflexivity. cbn [bind]. unfold rsm_result; cbn [hw_id hw_form hw_flip].
   unfold hq_flip. destruct (hq_reverse q).
   - cbn [set_children]. rewrite hq_flip_child. reflexivity.
   - reflexivity.
+Qed.
+
+(* ---- the round trip ---- *)
+
+Ltac rw_struct K :=
+  match goal with
+  | |- context [unmarshal_struct ?xn ?fs ?init ?tr] =>
+      match type of K with
+      | _ = ?rhs => rewrite (K : unmarshal_struct xn fs init tr = rhs)
+      end
+  end.
+
+Lemma norm_ok_token_reader jp d n : norm jp d = Ok n ->
+  exists ps, token_reader jp d = Ok (gform [] false [at_ (str "type") (dtyp d)] d ps).
+Proof.
+  unfold norm, token_reader. destruct (emitted_fields jp d (fields d)) as [fs| | |]; cbn [bind]; try discriminate.
+  rewrite field_trees_vals, norm_fields_vals. destruct (field_vals jp fs) as [ps| | |]; cbn [bind rmap]; try discriminate.
+  intros _. exists ps. reflexivity.
+Qed.
+
+Lemma wire1_is_elem n a k : exists a' k', wire1 (Elem n a k) = Elem n a' k'.
+Proof. rewrite wire1_elem. destruct n as [s l]. eexists; eexists; reflexivity. Qed.
+
+Lemma hquery_roundtrip : roundtrip hquery_c hq_dom hq_norm.
+Proof.
+  intros o q Hd.
+  destruct (hq_norm_tail o q
+              (mkhqraw (hq_id q) None (hq_reverse q) (hq_limit q)
+                 (if hq_last q then [] else hq_page q) (if hq_last q then Some (hq_page q) else None)) Hd)
+    as [n [Hn Ht]].
+  cbn [hw_id hw_flip hw_max hw_after hw_before] in Ht.
+  destruct (norm_ok_token_reader _ _ _ Hn) as [ps Htr].
+  set (t := gform [] false [at_ (str "type") (dtyp (hq_sub o q))] (hq_sub o q) ps) in *.
+  destruct (form_roundtrip (o_jid o) (hq_sub o q) t Htr) as [n' [Hn' [Hu Huw]]].
+  rewrite Hn in Hn'. inversion Hn'; subst n'. clear Hn'.
+  assert (Hfit : fits64 (hq_limit q)) by (destruct Hd as [_ [_ [_ H]]]; exact H).
+  (* the encoding *)
+  assert (Henc : c_enc hquery_c o q =
+                 Ok [Elem hquery_name [at_ (str "queryid") (hq_id q)] ([t; hq_rsm q] ++ hq_flip [] q)]).
+  { unfold hquery_c, c_enc, hquery_tr. rewrite hquery_submit_eq, Htr. cbn [bind one].
+    unfold hq_rsm, hq_flip. destruct (hq_last q), (hq_reverse q); reflexivity. }
+  eexists. split; [exact Henc|].
+  assert (Elast : hq_norm q =
+    mkhquery (hq_id q) (hq_with q) (tnorm (hq_start q)) (tnorm (hq_end q)) (hq_before q) (hq_after q)
+      (filter nonnil (hq_ids q)) (hq_limit q)
+      (match (if hq_last q then Some (hq_page q) else None) with Some _ => true | None => false end)
+      (match (if hq_last q then Some (hq_page q) else None) with Some b => b | None => if hq_last q then [] else hq_page q end)
+      (hq_reverse q)).
+  { unfold hq_norm. destruct (hq_last q); reflexivity. }
+  rewrite Elast. clear Elast.
+  destruct (hq_rsm_name q) as [sa [sk Ers]].
+  unfold hquery_c, c_dec. split.
+  - rewrite hquery_un_tail.
+    assert (K := hq_struct o q false [at_ (str "type") (dtyp (hq_sub o q))] _ (hq_rsm q) [] n Hu
+                   (ex_intro _ sa (ex_intro _ sk Ers))
+                   (fun r H1 H2 H3 => proj1 (hq_rsm_un q r Hfit H1 H2 H3))).
+    rw_struct K. cbn [bind]. exact Ht.
+  - rewrite wire1_elem. cbn [hquery_name nspace nlocal]. change (is_nil ns_mam) with false. cbv iota.
+    cbn [wire_attrs filter at_ ln aname nlocal is_nil negb app].
+    change (negb (is_nil (str "queryid"))) with true. cbv iota. cbn [flat_map].
+    unfold t at 1, gform at 1. rewrite (wire_explicit ns_mam x_name) by reflexivity.
+    fold (gform [] false [at_ (str "type") (dtyp (hq_sub o q))] (hq_sub o q) ps). fold t.
+    rewrite Ers at 1. rewrite (wire_explicit ns_mam set_name) by reflexivity. rewrite <- Ers.
+    assert (Efl : flat_map (wire ns_mam) (hq_flip [] q) = hq_flip ns_mam q).
+    { unfold hq_flip. destruct (hq_reverse q); reflexivity. }
+    rewrite Efl. rewrite ?app_nil_r.
+    destruct (wire1_is_elem x_name [at_ (str "type") (dtyp (hq_sub o q))]
+                ((if is_nil (title (hq_sub o q)) then [] else [gleaf [] false (str "title") (space_replace (title (hq_sub o q)))]) ++
+                 map (gleaf [] false (str "instructions")) (nonempty_runs (instructions (hq_sub o q))) ++ map (gfield [] false) ps))
+      as [xa' [xk' Ex]].
+    change (Elem x_name [at_ (str "type") (dtyp (hq_sub o q))] _) with t in Ex.
+    destruct (wire1_is_elem set_name sa sk) as [sa' [sk' Es]]. rewrite <- Ers in Es.
+    rewrite Ex in Huw |- *. 
+    assert (Emt : merge_text ((Elem x_name xa' xk' :: [wire1 (hq_rsm q)]) ++ hq_flip ns_mam q) =
+                  [Elem x_name xa' xk'; wire1 (hq_rsm q)] ++ hq_flip ns_mam q).
+    { apply merge_text_elems. rewrite Es. unfold hq_flip. destruct (hq_reverse q); reflexivity. }
+    cbn [app] in Emt |- *. rewrite Emt.
+    rewrite hquery_un_tail.
+    assert (K := hq_struct o q true xa' xk' (wire1 (hq_rsm q)) ns_mam n Huw
+                   (ex_intro _ sa' (ex_intro _ sk' Es))
+                   (fun r H1 H2 H3 => proj2 (hq_rsm_un q r Hfit H1 H2 H3))).
+    rw_struct K. cbn [bind]. exact Ht.
+Qed.
+
+Definition hquery_els := [hquery_name; ln (str "flip-page")] ++ form_els ++ rsm_els.
+Definition hquery_ats := [ln (str "queryid"); ln (str "index")] ++ form_ats.
+
+Lemma forallb_impl {A} (p q : A -> bool) l : (forall x, p x = true -> q x = true) -> forallb p l = true -> forallb q l = true.
+Proof.
+  intro H. induction l as [|x r IH]; cbn; [reflexivity|]. intro E. apply andb_true_iff in E. destruct E as [E1 E2].
+  rewrite (H x E1), (IH E2). reflexivity.
+Qed.
+
+Lemma mem_app_r n l1 l2 : mem n l2 = true -> mem n (l1 ++ l2) = true.
+Proof. unfold mem. rewrite existsb_app. intro H. rewrite H. apply orb_true_r. Qed.
+
+Lemma mem_app_l n l1 l2 : mem n l1 = true -> mem n (l1 ++ l2) = true.
+Proof. unfold mem. rewrite existsb_app. intro H. rewrite H. reflexivity. Qed.
+
+Lemma names_within_mono els ats els' ats' t :
+  (forall n, mem n els = true -> mem n els' = true) -> (forall n, mem n ats = true -> mem n ats' = true) ->
+  names_within els ats t = true -> names_within els' ats' t = true.
+Proof.
+  intros He Ha. unfold names_within. intro H. apply andb_true_iff in H. destruct H as [H1 H2].
+  rewrite (forallb_impl _ (fun n => existsb (name_eqb n) els') _ He H1).
+  rewrite (forallb_impl _ (fun n => existsb (name_eqb n) ats') _ Ha H2). reflexivity.
+Qed.
+
+Lemma hquery_wellformed : wellformed hquery_c hquery_els hquery_ats.
+Proof.
+  intros o q ts E. unfold hquery_c, c_enc, hquery_tr in E. rewrite hquery_submit_eq in E.
+  destruct (token_reader (o_jid o) (hq_sub o q)) as [t| | |] eqn:Et; cbn [bind] in E; try discriminate.
+  cbn [one] in E. inversion E; subst ts; clear E.
+  apply forest_wellformed_intro; try reflexivity. cbn [forallb]. rewrite andb_true_r.
+  rewrite names_within_elem. cbn [forallb].
+  assert (Ht : names_within hquery_els hquery_ats t = true).
+  { destruct (form_wellformed (o_jid o) _ t Et) as [_ [_ [Hn _]]]. cbn [forallb] in Hn. rewrite andb_true_r in Hn.
+    apply (names_within_mono form_els form_ats); [| |exact Hn].
+    - intros n H. unfold hquery_els. apply mem_app_r, mem_app_l. exact H.
+    - intros n H. unfold hquery_ats. apply mem_app_r. exact H. }
+  rewrite Ht.
+  assert (Hr : names_within hquery_els hquery_ats
+                 (if hq_last q then rprev_tr (mkrprev (hq_limit q) (hq_page q)) else rnext_tr (mkrnext (hq_limit q) (hq_page q))) = true).
+  { apply (names_within_mono rsm_els [ln (str "index")]).
+    - intros n H. unfold hquery_els. apply mem_app_r, mem_app_r. exact H.
+    - intros n H. unfold hquery_ats. apply mem_app_l. unfold mem in *. cbn in *. rewrite orb_false_r in H. rewrite H. apply orb_true_r.
+    - destruct (hq_last q).
+      + destruct (rprev_wellformed o (mkrprev (hq_limit q) (hq_page q)) _ eq_refl) as [_ [_ [Hn _]]].
+        cbn [forallb] in Hn. rewrite andb_true_r in Hn. exact Hn.
+      + destruct (rnext_wellformed o (mkrnext (hq_limit q) (hq_page q)) _ eq_refl) as [_ [_ [Hn _]]].
+        cbn [forallb] in Hn. rewrite andb_true_r in Hn. exact Hn. }
+  rewrite Hr. destruct (hq_reverse q); reflexivity.
 Qed.
